@@ -2,7 +2,9 @@ import Qryn.LogQL.Sem
 import Qryn.Proofs.Like
 import Qryn.Proofs.Limit
 import Qryn.Proofs.StreamSelect
-/-! Helper lemmas for C07. -/
+import Qryn.Proofs.PlanRows
+/-! The theorems of C07. Supporting lemmas: Proofs/Like, Bits, Sort, Limit, SqlSemLemmas, StreamSelect,
+    FpChain, PlanRows. -/
 namespace Qryn.Sql
 theorem like_contains (s v : Bytes) : like s (37 :: likeEscape v ++ [37]) = true ↔ v <:+: s :=
   like_contains' s v
@@ -20,7 +22,23 @@ theorem streamSelect_eval (o : Oracles) (c : Ctx) (hn : c.namesOk) (d : LokiDb) 
 theorem planLog_correct (o : Oracles) (c : Ctx) (hn : c.namesOk) (d : LokiDb) (q : LogQuery)
     (hlim : 0 ≤ c.limit) (hm : q.matchers.length ≤ 63) :
     evalSel o (d.toDb c) (planLog c q) = evalLog o c d q := by
-  sorry
+  have _ := hlim -- not needed: both sides use `c.limit.toNat`
+  obtain ⟨T, rest, hchain, hT⟩ := fpChain_eval o c hn d (labelConds q) (streamSelect c q.matchers) 0 []
+    (streamSelected o c d q.matchers) (fun v => streamSelect_eval' o c hn d q.matchers hm [] v)
+  have hT' : FpTable T (fpSelected o c d q) := hT
+  unfold planLog evalSel
+  simp only [evalWiths_append, hchain, evalWiths]
+  have hmain := main_eval o c d q ((.named "fp_sel", T) :: rest) T (by simp [List.lookup]) hT'
+  rw [hmain]
+  have hts := timeSeries_eval o c hn d q ((.named "main", (limited o c d q).map mainRow) :: (.named "fp_sel", T) :: rest) T
+    (by simp [List.lookup]) hT'
+  rw [hts]
+  have hj := joined_eval o c d q ((.named "_time_series", (d.ts.filter (tsOk o c d q)).map (tsOut o)) ::
+    (.named "main", (limited o c d q).map mainRow) :: (.named "fp_sel", T) :: rest) (limited o c d q)
+    (by simp [List.lookup]) (by simp [List.lookup])
+  rw [hj, evalBody_sorted]
+  simp only [sourceRows, List.lookup, beq_self_eq_true, Option.getD_some, optB, Bool.and_self, filter_true,
+    List.map_map, Function.comp_def, Alias.text, project_final, orderKeys, evalLog, finalKeys]
 
 theorem limit_newest (o : Oracles) (c : Ctx) (d : LokiDb) (q : LogQuery) (kept cut : Sample)
     (hk : kept ∈ limited o c d q)
